@@ -294,6 +294,40 @@ pub fn run(mut ctx0: Ctx) {
             }
         }
     }
+    // ---- the encoders: every header line of a head is written, once, in the order the lines of a name were given
+    // (a name may be repeated: Set-Cookie, Cookie, Via, ...), the head ends with an empty line --------------------------------
+    {
+        let ctx = &mut ctx0;
+        let names = ["set-cookie", "cookie", "via", "accept", "x-a", "content-type", "cache-control"];
+        let n_heads = if ctx.thorough() { 2000 } else { 300 };
+        for i in 0..n_heads {
+            let k = ctx.rng.below(7) as usize;
+            let headers: Vec<(String, Vec<u8>)> = (0..k).map(|j| (ctx.rng.pick(&names).to_string(), format!("v{}-{}", j, ctx.rng.below(50)).into_bytes())).collect();
+            let (what, out) = if i % 2 == 0 {
+                ("response 200", vh1::encode_response_bytes(200, &headers))
+            } else {
+                ("request GET http://origin.example/p?q=1", vh1::encode_request_bytes("GET", "http://origin.example/p?q=1", &headers))
+            };
+            ctx.stat("encoded_heads");
+            let Some(out) = out else { continue };
+            let text = String::from_utf8_lossy(&out).to_string();
+            let mut problem = None;
+            if !text.ends_with("\r\n\r\n") || text[..text.len() - 2].contains("\r\n\r\n") {
+                problem = Some("the head does not end with exactly one empty line".to_string());
+            }
+            let lines: Vec<(String, String)> = text.split("\r\n").skip(1).filter(|l| !l.is_empty()).filter_map(|l| l.split_once(": ").map(|(n, v)| (n.to_lowercase(), v.to_string()))).filter(|(n, _)| n != "host").collect();
+            for name in names {
+                let want: Vec<String> = headers.iter().filter(|(n, _)| n == name).map(|(_, v)| String::from_utf8_lossy(v).to_string()).collect();
+                let got: Vec<String> = lines.iter().filter(|(n, _)| n == name).map(|(_, v)| v.clone()).collect();
+                if want != got {
+                    problem = Some(format!("the lines of {} are {:?}, the head has {:?}", name, got, want));
+                }
+            }
+            if let Some(p) = problem {
+                ctx.oracle_failure("encoded_head_differs", &format!("{} with headers {:?} encoded as {:?}: {}", what, headers.iter().map(|(n, v)| format!("{}: {}", n, String::from_utf8_lossy(v))).collect::<Vec<_>>(), text, p));
+            }
+        }
+    }
     // ---- the download side towards a slow client: the codec blocks in its transport write while the
     // payload, the end of stream and possibly the drop of the sink arrive -------------------------------
     {
